@@ -1,3 +1,4 @@
+CONSTANT Want = {"c18"}
 INIT TraceInit
 NEXT TraceNext
 INVARIANTS C18_Retention
